@@ -712,6 +712,33 @@ func (c *CEnv) evalCall(e *Expr) Val {
 			}
 			v := c.eval(args[1])
 			return Val{t: fmt.Sprintf("(str.in_re %s %s)", v.t, re), typ: tBool}
+		case "$mapkey", "$mapidx":
+			// $mapkey(i): i-th key of the (arbitrary) enumeration used by the map range of this loop
+			// $mapidx(k): position of key k in that enumeration
+			if c.lookup == nil {
+				efail("%s outside a loop", fnE.S)
+			}
+			probe, ok := c.lookup("$mapiter")
+			if !ok || probe.parts == nil {
+				efail("%s: the loop has no map range", fnE.S)
+			}
+			a := c.eval(args[0])
+			if fnE.S == "$mapkey" {
+				return Val{t: fmt.Sprintf("(%s %s)", probe.parts[0].t, a.t), typ: probe.parts[0].typ}
+			}
+			return Val{t: fmt.Sprintf("(%s %s)", probe.parts[1].t, a.t), typ: tInt}
+		case "hasPrefix":
+			a, b := c.eval(args[0]), c.eval(args[1])
+			return Val{t: fmt.Sprintf("(str.prefixof %s %s)", b.t, a.t), typ: tBool}
+		case "hasSuffix":
+			a, b := c.eval(args[0]), c.eval(args[1])
+			return Val{t: fmt.Sprintf("(str.suffixof %s %s)", b.t, a.t), typ: tBool}
+		case "contains":
+			a, b := c.eval(args[0]), c.eval(args[1])
+			return Val{t: fmt.Sprintf("(str.contains %s %s)", a.t, b.t), typ: tBool}
+		case "itoa":
+			a := c.eval(args[0])
+			return Val{t: fmt.Sprintf("(ite (>= %s 0) (str.from_int %s) (str.++ \"-\" (str.from_int (- %s))))", a.t, a.t, a.t), typ: tString}
 		case "initconst":
 			return Val{t: smtStr(c.literalString(e)), typ: tString}
 		case "strlit": // helper: strlit("x")
